@@ -20,10 +20,19 @@ type evidence struct {
 	Violations  int                    `json:"violations"`
 }
 
+// outRoot is /verif for the registered commands; runs against a scratch
+// checkout (VERIF_REPO) keep their evidence and replay files out of /verif.
+func outRoot() string {
+	if os.Getenv("VERIF_REPO") != "" {
+		return filepath.Join(os.TempDir(), "vcheck-scratch-out")
+	}
+	return verifDir
+}
+
 func writeEvidence(ev *evidence) {
-	os.MkdirAll(filepath.Join(verifDir, "evidence"), 0o755)
+	os.MkdirAll(filepath.Join(outRoot(), "evidence"), 0o755)
 	b, _ := json.MarshalIndent(ev, "", " ")
-	p := filepath.Join(verifDir, "evidence", ev.PropertyID+".json")
+	p := filepath.Join(outRoot(), "evidence", ev.PropertyID+".json")
 	if err := os.WriteFile(p, b, 0o644); err != nil {
 		die(2, "write evidence: %v", err)
 	}
@@ -88,9 +97,9 @@ type replayFile struct {
 }
 
 func writeReplay(rf *replayFile, n int) string {
-	os.MkdirAll(filepath.Join(verifDir, "replays"), 0o755)
+	os.MkdirAll(filepath.Join(outRoot(), "replays"), 0o755)
 	rf.Created = time.Now().UTC().Format(time.RFC3339)
-	p := filepath.Join(verifDir, "replays", fmt.Sprintf("%s-%d-%d.json", rf.Property, rf.Seed, n))
+	p := filepath.Join(outRoot(), "replays", fmt.Sprintf("%s-%d-%d.json", rf.Property, rf.Seed, n))
 	b, _ := json.MarshalIndent(rf, "", " ")
 	if err := os.WriteFile(p, b, 0o644); err != nil {
 		die(2, "write replay: %v", err)
